@@ -424,17 +424,22 @@ def gen_scaled(rng, g, cfg, name, nodes, prices):
 
 
 def gen_structured(rng, g, cfg, name, nodes, prices):
-    """StructuredAsset wrapping a small inner portfolio with one internal node"""
-    ext = [rng.choice(nodes)]
+    """StructuredAsset wrapping a small inner portfolio with one internal node and one or two external nodes"""
+    ne = 2 if (len(nodes) >= 2 and rng.random() < cfg.get('p_struct_two_ext', 0.4)) else 1
+    ext = rng.sample(nodes, ne)
     inner_node = name + '_in'
     sub = dict(cfg, p_coarse=0.0, p_periodic=0.0, p_no_simult=0.0, p_max_store=0.0, p_blocks=0.0, p_window=0.2, window_kinds=['inside', 'left', 'right'])
-    assets = [gen_transport(rng, g, sub, name + '_t', inner_node, ext[0], prices)]
+    assets = []
+    for k, e in enumerate(ext):
+        # flows between the internal node and every external node, in either direction
+        n1, n2 = (inner_node, e) if rng.random() < 0.6 else (e, inner_node)
+        assets.append(gen_transport(rng, g, sub, '%s_t%d' % (name, k), n1, n2, prices))
     r = rng.random()
     if r < 0.5:
         assets.append(gen_storage(rng, g, sub, name + '_s', [inner_node], prices))
     assets.append(gen_simple_contract(rng, g, sub, name + '_c', inner_node, prices, market=(r > 0.3)))
     if rng.random() < 0.4:
-        assets.append(gen_simple_contract(rng, g, sub, name + '_x', ext[0], prices))
+        assets.append(gen_simple_contract(rng, g, sub, name + '_x', rng.choice(ext), prices))
     rng.shuffle(assets)
     return {'kind': 'StructuredAsset', 'name': name, 'nodes': ext, 'assets': assets}
 
